@@ -522,7 +522,7 @@ pub fn run(tier: &str, seed: u64, shards: usize, outdir: &str, only: Option<&str
     let thorough = tier == "thorough";
     let mut rng = StdRng::seed_from_u64(seed ^ 0x2C1E0);
     let scs = scenarios(thorough, &mut rng);
-    let per = if thorough { 120 } else { 12 };
+    let per = if thorough { 150 } else { 24 };
     install_crash_hook();
     let mut run_id = 0u64;
     let mut files: HashMap<usize, std::io::BufWriter<std::fs::File>> = HashMap::new();
